@@ -551,8 +551,13 @@ func (g vc17Group) expectErr(s vc17Shape) string {
 	if g.end == "err" {
 		return vc17BoomMsg
 	}
+	if g.end == "silent" {
+		return "*" // Completion returned nil without a done chunk: some error must be reported
+	}
 	return ""
 }
+
+func vc17ErrIs(got, exp string) bool { return exp == "*" || got == exp }
 
 func vc17ParseGroup(line string) (vc17Group, error) {
 	var g vc17Group
@@ -1048,7 +1053,7 @@ func (h *vc17H) monitors(g vc17Group, chunks []llm.CompletionResponse, results m
 			if a.finals != 1 || !a.lastFin {
 				fail("one-final", s, fmt.Sprintf("terminal-events=%d last-is-terminal=%v events=%d", a.finals, a.lastFin, len(res.evs)))
 			}
-			if exp != "" && (len(a.errs) != 1 || a.errs[0] != exp) {
+			if exp != "" && (len(a.errs) != 1 || !vc17ErrIs(a.errs[0], exp)) {
 				fail("error-lost", s, fmt.Sprintf("errors=%q want %q", a.errs, exp))
 			}
 			if exp == "" && len(a.errs) != 0 {
@@ -1076,7 +1081,7 @@ func (h *vc17H) monitors(g vc17Group, chunks []llm.CompletionResponse, results m
 			}
 			e := res.evs[0]
 			if exp != "" {
-				if res.status != 500 || e.tag != "e" || e.text != exp {
+				if res.status != 500 || e.tag != "e" || !vc17ErrIs(e.text, exp) {
 					fail("error-lost", s, fmt.Sprintf("status=%d body=%s", res.status, e))
 				}
 			} else {
@@ -1103,7 +1108,7 @@ func (h *vc17H) monitors(g vc17Group, chunks []llm.CompletionResponse, results m
 			}
 		}
 		// --- stream concatenation == non-stream reply (same endpoint, same request otherwise)
-		if native && s.streaming() && exp == "" {
+		if native && s.streaming() && (exp == "" || exp == "*") {
 			o := s
 			o.stream = 0
 			once, have := results[o.String()]
@@ -1178,7 +1183,7 @@ func (h *vc17H) monitors(g vc17Group, chunks []llm.CompletionResponse, results m
 				}
 				e := res.evs[0]
 				if exp != "" {
-					if res.status != 500 || e.tag != "E" || e.text != exp {
+					if res.status != 500 || e.tag != "E" || !vc17ErrIs(e.text, exp) {
 						fail("openai-error-lost", s, fmt.Sprintf("status=%d body=%s", res.status, e))
 					}
 					continue
